@@ -14,6 +14,8 @@
 
 """Checks for dependency cycles in Emboss IR."""
 
+import re
+
 from compiler.util import error
 from compiler.util import ir_data
 from compiler.util import ir_util
@@ -298,6 +300,29 @@ def _find_cycles(graph):
     return nontrivial_components
 
 
+def _natural_order(node):
+    """Sort key for a node name: runs of digits compare as numbers.
+
+    Anonymous fields are named `emboss_reserved_anonymous_field_<n>`, where <n>
+    counts the anonymous fields parsed so far in the process.  Ordering such
+    names as plain strings (`..._10` before `..._9`) would make the order of the
+    notes of a cycle depend on what was compiled earlier.
+    """
+    natural = tuple(
+        tuple(
+            int(piece) if index % 2 else piece
+            for index, piece in enumerate(re.split(r"([0-9]+)", part))
+        )
+        for part in node
+    )
+    # `x1` and `x01` have the same natural form; the name itself breaks the tie.
+    return (natural, node)
+
+
+def _sorted_cycle(cycle):
+    return sorted(cycle, key=_natural_order)
+
+
 def _location_for_cycle_node(node, ir):
     """Returns the location of the named object, or of its enclosing type.
 
@@ -319,12 +344,14 @@ def _find_object_dependency_cycles(ir):
         return find_dependency_errors
     errors = []
     cycles = _find_cycles(dict(dependencies))
-    for cycle in sorted(cycles, key=sorted):
+    for cycle in sorted(
+        cycles, key=lambda cycle: [_natural_order(node) for node in _sorted_cycle(cycle)]
+    ):
         # TODO(bolms): This lists the entire strongly-connected component in a
         # fairly arbitrary order.  This is simple, and handles components that
         # aren't simple cycles, but may not be the most user-friendly way to
         # present this information.
-        cycle_list = sorted(list(cycle))
+        cycle_list = _sorted_cycle(cycle)
         node_object = ir_util.find_object(cycle_list[0], ir)
         error_group = [
             error.error(
@@ -351,8 +378,10 @@ def _find_module_dependency_cycles(ir):
     dependencies = _find_module_import_dependencies(ir)
     cycles = _find_cycles(dict(dependencies))
     errors = []
-    for cycle in sorted(cycles, key=sorted):
-        cycle_list = sorted(list(cycle))
+    for cycle in sorted(
+        cycles, key=lambda cycle: [_natural_order(node) for node in _sorted_cycle(cycle)]
+    ):
+        cycle_list = _sorted_cycle(cycle)
         module = ir_util.find_object(cycle_list[0], ir)
         error_group = [
             error.error(
